@@ -284,3 +284,22 @@ class Check:
         with open(os.path.join(OUT, rel), "w") as f:
             f.write(blob + "\n")
         return rel
+
+
+def replay_directed(module, pid, path):
+    """a violation found by a directed task (judged on the real run alone) names the task function and its arguments: run it
+    again; None when the replay file is of another kind"""
+    import json
+    obj = json.load(open(path))
+    d = obj.get("replay", {}).get("directed") if isinstance(obj.get("replay"), dict) else None
+    if not d:
+        return None
+    r = getattr(module, d["fn"])(d["task"])
+    if "machinery" in r:
+        raise MachineryError(r["machinery"])
+    bad = r.get("bad") or r.get("problems") or []
+    print(json.dumps({"task": d, "bad": [{k: v for k, v in b.items() if k != "world"} if isinstance(b, dict) else b for b in bad]}, indent=1, default=repr))
+    if bad:
+        print("VIOLATION property=%s replay=%s" % (pid, path))
+        return 1
+    return 0
